@@ -902,7 +902,16 @@ pub fn run_one(scn: &Value) -> Vec<Value> {
         root,
         pair: role == "pair",
     };
-    log.push(json!({"ev": "reset", "scn": scn["id"], "role": role, "cfg": cfg}));
+    // everything the generator says about the scenario except the step list travels with the reset event
+    let mut meta = serde_json::Map::new();
+    if let Some(o) = scn.as_object() {
+        for (k, v) in o.iter() {
+            if !["steps", "handlers", "default_handler", "cfg", "id", "role"].contains(&k.as_str()) {
+                meta.insert(k.clone(), v.clone());
+            }
+        }
+    }
+    log.push(json!({"ev": "reset", "scn": scn["id"], "role": role, "cfg": cfg, "meta": meta}));
     let mk_net = |r: Role, tag: &'static str, c: &Value| {
         let n = Net::new(r, tag, log.clone());
         {
